@@ -73,6 +73,7 @@ type Case struct {
 	Items   []string  `json:"items"` // list kinds: hex strings (tag names, label values, stored label documents)
 	Spans   []SpanSpec    `json:"spans,omitempty"`  // trace: the spans the fake service returns
 	Traces  [][]TraceSpec `json:"traces,omitempty"` // search / searchql: batches of traces
+	JSpans  []JSpan       `json:"jspans,omitempty"` // trace: observed JSONSpan values (output)
 	Blbls   [][][2]string `json:"blbls"` // Prometheus kinds: label slice of every batch (= series), hex
 	Order   []string  `json:"order"` // vector: fingerprints in the order of the result array (read back through the "id" label)
 	Out     string    `json:"out"`   // hex of the concatenated chunks
@@ -796,6 +797,15 @@ type TraceSpec struct {
 	Name    string `json:"name"` // hex
 	Start   int64  `json:"start"`
 	Dur     int64  `json:"dur"`
+	Flags   int    `json:"fl"` // searchql: bit 0 Attributes nil, bit 1 Spans nil, bit 2 SpanSets nil
+}
+
+// JSpan: the field values of the model.JSONSpan that SpanToJSONSpan produced (what json.Marshal walks)
+type JSpan struct {
+	F      []string    `json:"f"`      // hex: traceID traceId spanID spanId name, decimal start end, hex parent service
+	Attrs  [][2]string `json:"attrs"`  // hex key, hex stringValue
+	Events [][2]string `json:"events"` // decimal time, hex name
+	Status []string    `json:"status"` // empty: nil; else decimal code, hex message
 }
 
 func genSpan(r *rand.Rand) SpanSpec {
@@ -888,7 +898,17 @@ func genTempoCase(r *rand.Rand, id int, kind string) Case {
 	for i := 0; i < n; i++ {
 		b := make([]byte, 16)
 		r.Read(b)
-		flat = append(flat, TraceSpec{TraceID: hx.Hex(string(b)), Svc: hx.Hex(genBytes(r)), Name: hx.Hex(genBytes(r)), Start: genTs(r), Dur: r.Int63n(100000)})
+		ts := TraceSpec{TraceID: hx.Hex(string(b)), Svc: hx.Hex(genBytes(r)), Name: hx.Hex(genBytes(r)), Start: genTs(r), Dur: r.Int63n(100000)}
+		if kind == "searchql" {
+			if r.Intn(3) == 0 {
+				ts.Flags = r.Intn(8)
+			}
+			switch r.Intn(6) {
+			case 0: // durations json.Marshal prints in the 'e' layout, or with many digits
+				ts.Dur = []int64{0, 1, 7, 1 << 62, 123456789012345678}[r.Intn(5)]
+			}
+		}
+		flat = append(flat, ts)
 	}
 	if kind == "search" {
 		c.Traces = [][]TraceSpec{flat}
@@ -930,16 +950,36 @@ func toTraceResponse(t TraceSpec) *model.TraceResponse {
 	return &model.TraceResponse{TraceID: t.TraceID, RootServiceName: hx.UnHex(t.Svc), RootTraceName: hx.UnHex(t.Name),
 		StartTimeUnixNano: t.Start, DurationMs: t.Dur}
 }
+// traceDur: DurationMs of the TraceInfo; small and huge values reach the 'e' layout of encoding/json
+func traceDur(t TraceSpec) float64 {
+	switch {
+	case t.Dur == 1:
+		return 1e-7
+	case t.Dur == 7:
+		return 2.5e-9
+	case t.Dur >= 1<<62:
+		return 1.5e21
+	}
+	return float64(t.Dur) / 8
+}
+
 func toTraceInfo(t TraceSpec) model.TraceInfo {
 	ti := model.TraceInfo{TraceID: t.TraceID, RootServiceName: hx.UnHex(t.Svc), RootTraceName: hx.UnHex(t.Name),
-		StartTimeUnixNano: strconv.FormatInt(t.Start, 10), DurationMs: float64(t.Dur) / 8}
+		StartTimeUnixNano: strconv.FormatInt(t.Start, 10), DurationMs: traceDur(t)}
 	si := model.SpanInfo{SpanID: t.TraceID[:16], StartTimeUnixNano: strconv.FormatInt(t.Start, 10), DurationNanos: strconv.FormatInt(t.Dur, 10)}
 	var a model.SpanAttr
 	a.Key = hx.UnHex(t.Name)
 	a.Value.StringValue = hx.UnHex(t.Svc)
-	si.Attributes = []model.SpanAttr{a}
-	ti.SpanSet = model.SpanSet{Spans: []model.SpanInfo{si}, Matched: 1}
-	ti.SpanSets = []model.SpanSet{ti.SpanSet}
+	if t.Flags&1 == 0 {
+		si.Attributes = []model.SpanAttr{a}
+	}
+	ti.SpanSet = model.SpanSet{Matched: 1}
+	if t.Flags&2 == 0 {
+		ti.SpanSet.Spans = []model.SpanInfo{si}
+	}
+	if t.Flags&4 == 0 {
+		ti.SpanSets = []model.SpanSet{ti.SpanSet}
+	}
 	return ti
 }
 func (f *fakeTempoT) Search(ctx context.Context, tags string, minDurationNS int64, maxDurationNS int64, limit int, fromNS int64, toNS int64) (chan *model.TraceResponse, error) {
@@ -975,12 +1015,27 @@ func runTempo(c *Case) string {
 	c.Items = nil
 	switch c.Kind {
 	case "trace":
+		c.JSpans = nil
 		for _, sp := range c.Spans {
-			b, err := json.Marshal(unmarshal.SpanToJSONSpan(toSpan(sp)))
+			js := unmarshal.SpanToJSONSpan(toSpan(sp))
+			b, err := json.Marshal(js)
 			if err != nil {
 				panic(err)
 			}
 			c.Items = append(c.Items, hx.Hex(string(b)))
+			o := JSpan{F: []string{hx.Hex(js.TraceID), hx.Hex(js.TraceId), hx.Hex(js.SpanID), hx.Hex(js.SpanId), hx.Hex(js.Name),
+				strconv.FormatUint(js.StartTimeUnixNano, 10), strconv.FormatUint(js.EndTimeUnixNano, 10), hx.Hex(js.ParentSpanId), hx.Hex(js.ServiceName)},
+				Attrs: [][2]string{}, Events: [][2]string{}, Status: []string{}}
+			for _, a := range js.Attributes {
+				o.Attrs = append(o.Attrs, [2]string{hx.Hex(a.Key), hx.Hex(a.Value.StringValue)})
+			}
+			for _, e := range js.Events {
+				o.Events = append(o.Events, [2]string{strconv.FormatUint(e.TimeUnixNano, 10), hx.Hex(e.Name)})
+			}
+			if js.Status != nil {
+				o.Status = []string{strconv.Itoa(int(js.Status.Code)), hx.Hex(js.Status.Message)}
+			}
+			c.JSpans = append(c.JSpans, o)
 		}
 		r := httptest.NewRequest("GET", "/api/traces/x", nil)
 		r = mux.SetURLVars(r, map[string]string{"traceId": "0123456789abcdef0123456789abcdef"})
@@ -1065,7 +1120,7 @@ func genStoredDoc(r *rand.Rand) (string, bool) {
 		}
 		return "{" + strings.Join(parts, ",") + "}", true
 	case 1:
-		return []string{"", "{", "nul", "{\"a\":1}{}", "[1,2]", " {\"a\" : \"b\"} "}[r.Intn(6)], true
+		return []string{"", "{", "nul", "{\"a\":1}{}", "[1,2]", " {\"a\" : \"b\"} ", "null", "{\"a\":1}", "{\"a\":\"x\",\"a\":\"y\"}", "{\"a\":null}", "\"s\""}[r.Intn(11)], true
 	}
 	for k, v := range m { // stored documents are valid UTF-8 JSON in the good case
 		if !utf8.ValidString(k) || !utf8.ValidString(v) {
